@@ -5,7 +5,7 @@ group shape up to three entries).  The unit-conversion leg of ScaledQuantity::tr
 """
 import os, json
 from fractions import Fraction
-import scratch, native, mcheck, mir, smt, models
+import scratch, native, mcheck, mir, smt, models, kani_group, registry
 import c08
 from mir import SV, Agg, Enum, Opaque, OpenAgg, VecVal
 
@@ -142,6 +142,87 @@ def m_part(run, scr, nat):
         run.inconclusive.append("try_add: expected the four numeric kind pairs as success paths, found %d" % n_ok)
     if PANIC_ONLY:
         items[:] = [i for i in items if "panic" in i[0]]
+
+    # ---- Quantity::compatible_unit: the contract ScaledQuantity::try_add relies on (rhs is converted INTO the returned unit and
+    #      the total keeps the left unit): a common unit is the LEFT operand's unit, only for two known units of one physical quantity
+    it.models.update(models.RESULT_MODELS)
+    qf = decls.structs.lookup("Quantity", "quantity")
+    f_compat = c.dump.find_impl_method("compatible_unit", r"\(_1: &quantity::Quantity<V>, _2: &quantity::Quantity<V>, _3: &Converter\)")
+    run.functions.append("quantity::Quantity::compatible_unit (MIR)")
+    uf = decls.structs.lookup("Unit", "convert")
+    pqn0 = [v for v, _ in decls.enums["PhysicalQuantity"]]
+    cu_l = sem.sym_int("cu_lunit", "isize", 0, 1)
+    cu_r = sem.sym_int("cu_runit", "isize", 0, 1)
+    cu_lk = sem.sym_int("cu_lknown", "isize", 0, 1)
+    cu_rk = sem.sym_int("cu_rknown", "isize", 0, 1)
+    cu_lpq = sem.sym_int("cu_lpq", "isize", 0, len(pqn0) - 1)
+    cu_rpq = sem.sym_int("cu_rpq", "isize", 0, len(pqn0) - 1)
+    sem.decls.append("(declare-const cu_text_eq Bool)")
+    ltxt, rtxt = Opaque("left unit text"), Opaque("right unit text")
+    lunit_info = OpenAgg("Unit", {str(uf.index("physical_quantity")): SV("isize", cu_lpq)})
+    runit_info = OpenAgg("Unit", {str(uf.index("physical_quantity")): SV("isize", cu_rpq)})
+    lunit_info.tag, runit_info.tag = "L", "R"
+
+    def m_find_unit(it_, a, callee):
+        key = it_.deref(a[1], it_.cur_env) if not isinstance(a[1], Opaque) else a[1]
+        if key is ltxt:
+            return models.mk_option(it_, SV("isize", cu_lk), lunit_info)
+        if key is rtxt:
+            return models.mk_option(it_, SV("isize", cu_rk), runit_info)
+        raise mir.Unsupported("find_unit on an unexpected key")
+
+    def m_text_ne(it_, a, callee):
+        return SV("bool", "(not cu_text_eq)")
+
+    def m_pq_ne(it_, a, callee):
+        x, y = it_.deref(a[0], it_.cur_env), it_.deref(a[1], it_.cur_env)
+        return SV("bool", "(not (= %s %s))" % (x.expr, y.expr))
+    cu_models = {
+        r"^Converter::find_unit$": m_find_unit,
+        r"^<&std::string::String as PartialEq>::ne$": m_text_ne,
+        r"^<std::string::String as PartialEq>::ne$": m_text_ne,
+        r"^<convert::PhysicalQuantity as PartialEq>::ne$": m_pq_ne,
+        r"^<std::sync::Arc<convert::Unit> as Deref>::deref$": models.m_identity,
+        r"^<std::string::String as Deref>::deref$": models.m_identity,
+        r"^<std::string::String as Clone>::clone$": models.m_identity,
+        r"^Converter::default_system$": models.m_opaque,
+    }
+    saved0 = dict(it.models)
+    it.models.update(cu_models)
+    cql = Agg("Quantity", {str(qf.index("value")): Opaque("left value"), str(qf.index("unit")): models.mk_option(it, SV("isize", cu_l), ltxt)})
+    cqr = Agg("Quantity", {str(qf.index("value")): Opaque("right value"), str(qf.index("unit")): models.mk_option(it, SV("isize", cu_r), rtxt)})
+    both_known = "(and (= cu_lunit 1) (= cu_runit 1) (= cu_lknown 1) (= cu_rknown 1))"
+    n_cu = {"some": 0, "none": 0, "err": 0}
+    for o in it.run(f_compat, [cql, cqr, Opaque("converter")]):
+        p = ">".join(o.trace[-3:])
+        if o.kind == "panic":
+            ob("compatible_unit never panics: %s" % str(o.msg)[:40], o.pc, "true")
+            continue
+        if o.kind != "return":
+            continue
+        res = o.value
+        if "Ok" in res.variants:
+            opt = res.variants["Ok"].fields["0"]
+            for pc2, is_some, payload in models.opt_cases(it, opt):
+                if is_some:
+                    n_cu["some"] += 1
+                    is_left = "true" if payload is lunit_info else "false"
+                    ob("compatible_unit Ok(Some) path[%s]: both units are known, of one physical quantity, and the common unit is the LEFT one "
+                       "(try_add converts the right value into it and keeps the left unit)" % p, o.pc + pc2,
+                       "(not (and %s (= cu_lpq cu_rpq) %s))" % (both_known, is_left))
+                    ob("reachable: compatible_unit Ok(Some) path[%s]" % p, o.pc + pc2, "true", "info")
+                else:
+                    n_cu["none"] += 1
+                    ob("compatible_unit Ok(None) path[%s]: no unit on either side, or the same text when a unit is unknown to the converter" % p,
+                       o.pc + pc2, "(not (or (and (= cu_lunit 0) (= cu_runit 0)) (and (= cu_lunit 1) (= cu_runit 1) (not %s) cu_text_eq)))" % both_known)
+        else:
+            n_cu["err"] += 1
+            ob("compatible_unit Err path[%s]: exactly one side has a unit, or two known units of different physical quantities, or differing unknown unit texts" % p,
+               o.pc, "(not (or (not (= cu_lunit cu_runit)) (and %s (not (= cu_lpq cu_rpq))) (and (= cu_lunit 1) (= cu_runit 1) (not %s) (not cu_text_eq))))" % (both_known, both_known))
+    if n_cu["some"] < 1 or n_cu["none"] < 2 or n_cu["err"] < 3:
+        run.inconclusive.append("compatible_unit: expected Some / None / Err paths, found %r" % n_cu)
+    it.models.clear()
+    it.models.update(saved0)
 
     # ---- ScaledQuantity::try_add: the sum of the (possibly converted) right-hand value, in the left-hand unit
     it.models.update(models.RESULT_MODELS)
@@ -484,10 +565,14 @@ def check(run):
     scr.inject()
     nat = native.Native(scr)
     nat.build(log=os.path.join(run.logdir, "native-build.log"))
-    try:
-        m_part(run, scr, nat)
-    except mir.Unsupported as e:
-        run.inconclusive.append("encoder: %s" % e)
+    only = os.environ.get("VERIF_ONLY", "")
+    if only in ("", "M"):
+        try:
+            m_part(run, scr, nat)
+        except mir.Unsupported as e:
+            run.inconclusive.append("encoder: %s" % e)
+    if only in ("", "K"):
+        kani_group.run_group(run, scr, registry.select("C10", run.tier))
     # validation: the solver's verdict and the real code must agree on concrete histories (public API)
     for args in (("1.5", "2.25", "1.0", "2.0", "3.0", "5.0"), ("0.1", "0.2", "10.0", "20.0", "0.5", "0.75")):
         r = nat.call("group_scenario", *args)
@@ -509,6 +594,13 @@ def replay(run, path):
     scr = scratch.Scratch()
     scr.copy_repo()
     scr.inject()
+    if obj.get("engine") == "kani":
+        st = kani_group.replay(run, scr, path)
+        print("replay:", st)
+        if st == "failed":
+            print("VIOLATION property=C10 replay=%s" % path)
+            return 1
+        return 0 if st == "passed" else 2
     nat = native.Native(scr)
     nat.build()
     r = nat.call("group_scenario", *obj["args"])
